@@ -38,6 +38,14 @@ func (h Held) String() string { return h.Mode + "(" + h.Path + ")" }
 type lstate struct {
 	held   []Held
 	defers []ast.Node // *ast.DeferStmt in registration order
+	// unlockers: local variables holding the release function returned by a lock helper
+	// (unlock := u.lockBoth(tx); ... unlock()), with the locks it releases
+	unlockers []unlocker
+}
+
+type unlocker struct {
+	obj  types.Object
+	held []Held
 }
 
 func (s lstate) key() string {
@@ -49,11 +57,14 @@ func (s lstate) key() string {
 	for _, d := range s.defers {
 		fmt.Fprintf(&sb, "%d,", d.Pos())
 	}
+	for _, u := range s.unlockers {
+		fmt.Fprintf(&sb, "|u%d", u.obj.Pos())
+	}
 	return sb.String()
 }
 
 func (s lstate) clone() lstate {
-	return lstate{held: append([]Held{}, s.held...), defers: append([]ast.Node{}, s.defers...)}
+	return lstate{held: append([]Held{}, s.held...), defers: append([]ast.Node{}, s.defers...), unlockers: append([]unlocker{}, s.unlockers...)}
 }
 
 func (s lstate) holds(path string) (Held, bool) {
@@ -264,6 +275,193 @@ func (p *Prog) lockWrappers() map[string]wrapperSum {
 	return w
 }
 
+// ---- lock helpers beyond one-line wrappers ------------------------------------------------------------------
+
+// lockHelperSum describes a function that (a) returns with locks held together with a function value that
+// releases them ("defer u.lockBoth(tx)()"), and/or (b) runs a function-typed parameter while holding locks
+// ("r.write(func() { ... })"). Paths are relative to the helper (receiver / parameter names).
+type lockHelperSum struct {
+	Acquires  []Held         // held at every exit, released by the returned function
+	UnderLock map[int][]Held // parameter index -> locks held at every call of that parameter
+	computed  bool
+}
+
+func (p *Prog) lockHelper(fi *FuncInfo) *lockHelperSum {
+	if p.lockHelpers == nil {
+		p.lockHelpers = map[string]*lockHelperSum{}
+	}
+	if sum, ok := p.lockHelpers[fi.Key]; ok {
+		return sum
+	}
+	sum := &lockHelperSum{UnderLock: map[int][]Held{}}
+	p.lockHelpers[fi.Key] = sum // recursion guard: an empty summary while computing
+	if fi.Decl.Body == nil {
+		return sum
+	}
+	info := fi.Pkg.TypesInfo
+	sig := fi.Sig()
+	returnsFunc := sig.Results().Len() == 1
+	if returnsFunc {
+		_, returnsFunc = sig.Results().At(0).Type().Underlying().(*types.Signature)
+	}
+	funcParams := map[types.Object]int{}
+	for idx, po := range paramObjs(fi) {
+		if po != nil && idx >= 0 {
+			if _, isFn := po.Type().Underlying().(*types.Signature); isFn {
+				funcParams[po] = idx
+			}
+		}
+	}
+	if !returnsFunc && len(funcParams) == 0 {
+		return sum
+	}
+	lr := p.LockFlow(fi, nil)
+	if returnsFunc && len(lr.Exits) > 0 {
+		// same non-empty lockset at every exit
+		first := lr.Exits[0]
+		same := len(first) > 0
+		for _, e := range lr.Exits[1:] {
+			if heldString(e) != heldString(first) {
+				same = false
+			}
+		}
+		if same {
+			// every returned value is a literal (or method value) that releases exactly these locks
+			okAll, seen := true, false
+			ast.Inspect(fi.Decl.Body, func(x ast.Node) bool {
+				if _, isLit := x.(*ast.FuncLit); isLit {
+					return false
+				}
+				rs, ok := x.(*ast.ReturnStmt)
+				if !ok || len(rs.Results) != 1 {
+					return true
+				}
+				seen = true
+				switch r := ast.Unparen(rs.Results[0]).(type) {
+				case *ast.FuncLit:
+					la := &lockAnalyzer{p: p, fi: fi, res: &LockResult{Fn: fi}}
+					exits := la.body(fi.Pkg, r.Body, lstate{held: append([]Held{}, first...)}, "lit", r)
+					for _, e := range exits {
+						if len(e.held) != 0 {
+							okAll = false
+						}
+					}
+					if len(exits) == 0 {
+						okAll = false
+					}
+				case *ast.SelectorExpr, *ast.Ident:
+					// a function value that releases the lock: x.m.Unlock, sequence.UnlockSnapshot, r.unlock
+					okThis := false
+					var fnObj *types.Func
+					var recvExpr ast.Expr
+					switch v := r.(type) {
+					case *ast.SelectorExpr:
+						fnObj, _ = info.Uses[v.Sel].(*types.Func)
+						recvExpr = v.X
+					case *ast.Ident:
+						fnObj, _ = info.Uses[v].(*types.Func)
+					}
+					if fnObj != nil && len(first) == 1 {
+						if mode, acq, _, isSync := syncOp(fnObj); isSync && !acq && recvExpr != nil && first[0].Mode == mode && first[0].Path == exprPath(recvExpr) {
+							okThis = true
+						}
+						if w, isW := p.lockWrappers()[fkey(fnObj)]; isW && !w.Acq && w.Mode == first[0].Mode && w.Class == first[0].Class {
+							okThis = true
+						}
+					}
+					if !okThis {
+						okAll = false
+					}
+				default:
+					okAll = false
+				}
+				return true
+			})
+			if okAll && seen {
+				sum.Acquires = first
+			}
+		}
+	}
+	for _, ev := range lr.Events {
+		if ev.Kind != "call" || ev.Call == nil || ev.Ctx == "go" {
+			continue
+		}
+		if o := objOf(info, ev.Call.Fun); o != nil {
+			if idx, ok := funcParams[o]; ok {
+				if prev, seen := sum.UnderLock[idx]; seen {
+					var keep []Held
+					for _, h := range prev {
+						for _, g := range ev.Held {
+							if g.Path == h.Path {
+								keep = append(keep, h)
+							}
+						}
+					}
+					sum.UnderLock[idx] = keep
+				} else {
+					sum.UnderLock[idx] = append([]Held{}, ev.Held...)
+				}
+			}
+		}
+	}
+	sum.computed = true
+	return sum
+}
+
+// translateHeld rewrites helper-relative lock paths (leading receiver / parameter name) to the caller's
+// expressions at a call site.
+func translateHeld(hs []Held, callee *FuncInfo, c *ast.CallExpr) []Held {
+	names := map[string]string{}
+	args := argExprs(c, callee)
+	for idx, po := range paramObjs(callee) {
+		if po != nil && args[idx] != nil {
+			names[po.Name()] = exprPath(args[idx])
+		}
+	}
+	var res []Held
+	for _, h := range hs {
+		path := h.Path
+		head, rest := path, ""
+		if i := strings.Index(path, "."); i >= 0 {
+			head, rest = path[:i], path[i:]
+		}
+		if to, ok := names[head]; ok {
+			path = to + rest
+		}
+		res = append(res, Held{Path: path, Class: h.Class, Mode: h.Mode})
+	}
+	return res
+}
+
+func addHeld(s lstate, hs []Held) lstate {
+	ns := s.clone()
+	for _, h := range hs {
+		if _, ok := ns.holds(h.Path); !ok {
+			ns.held = append(ns.held, h)
+		}
+	}
+	sort.Slice(ns.held, func(i, j int) bool { return ns.held[i].Path < ns.held[j].Path })
+	return ns
+}
+
+func dropHeld(s lstate, hs []Held) lstate {
+	ns := s.clone()
+	var keep []Held
+	for _, h := range ns.held {
+		drop := false
+		for _, g := range hs {
+			if g.Path == h.Path {
+				drop = true
+			}
+		}
+		if !drop {
+			keep = append(keep, h)
+		}
+	}
+	ns.held = keep
+	return ns
+}
+
 // lockOpOf recognises a lock operation (direct sync call or wrapper).
 func (p *Prog) lockOpOf(pkg *packages.Package, c *ast.CallExpr) *LockOp {
 	info := pkg.TypesInfo
@@ -446,6 +644,18 @@ func (la *lockAnalyzer) transfer(pkg *packages.Package, f *Flat, n *GNode, s lst
 	switch st := n.Ast.(type) {
 	case *ast.DeferStmt:
 		ns := s.clone()
+		// defer u.lockBoth(tx)(): the inner call runs now and takes the locks, the function it returns is deferred
+		if inner, ok := ast.Unparen(st.Call.Fun).(*ast.CallExpr); ok {
+			if callee := la.p.staticCallee(pkg, inner); callee != nil {
+				if sum := la.p.lockHelper(callee); len(sum.Acquires) > 0 {
+					hs := translateHeld(sum.Acquires, callee, inner)
+					for _, h := range hs {
+						la.event(&LockEvent{Kind: "acquire", Call: inner, Op: &LockOp{Path: h.Path, Class: h.Class, Mode: h.Mode, Acquire: true}, Node: st, Held: ns.held, Ctx: ctx, InLit: inLit})
+						ns = addHeld(ns, []Held{h})
+					}
+				}
+			}
+		}
 		ns.defers = append(ns.defers, st)
 		// arguments of the deferred call are evaluated now, but lock-relevant deferred calls have none
 		return map[int][]lstate{0: {ns}}
@@ -517,16 +727,63 @@ func (la *lockAnalyzer) applyCall(pkg *packages.Package, info *types.Info, n *GN
 		la.event(&LockEvent{Kind: kind, Call: c, Op: op, Node: n.Ast, Held: s.held, Ctx: ctx, InLit: inLit, Double: double, Stray: stray})
 		return []lstate{ns}
 	}
+	// unlock() where unlock := helper(args)
+	if o := objOf(info, c.Fun); o != nil {
+		for _, u := range s.unlockers {
+			if u.obj == o {
+				for _, h := range u.held {
+					la.event(&LockEvent{Kind: "release", Call: c, Op: &LockOp{Path: h.Path, Class: h.Class, Mode: h.Mode}, Node: n.Ast, Held: s.held, Ctx: ctx, InLit: inLit})
+				}
+				return []lstate{dropHeld(s, u.held)}
+			}
+		}
+	}
 	keys := la.p.calleeKeys(pkg, c)
 	kind := "call"
 	la.event(&LockEvent{Kind: kind, Call: c, Keys: keys, Node: n.Ast, Held: s.held, Ctx: ctx, InLit: inLit})
+	var helper *lockHelperSum
+	var helperFI *FuncInfo
+	if callee := la.p.staticCallee(pkg, c); callee != nil {
+		helper, helperFI = la.p.lockHelper(callee), callee
+	}
+	// unlock := helper(args): the locks are held from here on, the variable releases them
+	if helper != nil && len(helper.Acquires) > 0 {
+		hs := translateHeld(helper.Acquires, helperFI, c)
+		ns := s
+		for _, h := range hs {
+			la.event(&LockEvent{Kind: "acquire", Call: c, Op: &LockOp{Path: h.Path, Class: h.Class, Mode: h.Mode, Acquire: true}, Node: n.Ast, Held: ns.held, Ctx: ctx, InLit: inLit})
+			ns = addHeld(ns, []Held{h})
+		}
+		if as, ok := n.Ast.(*ast.AssignStmt); ok && len(as.Lhs) == 1 && len(as.Rhs) == 1 && ast.Unparen(as.Rhs[0]) == ast.Expr(c) {
+			if o := objOf(info, as.Lhs[0]); o != nil {
+				ns = ns.clone()
+				ns.unlockers = append(ns.unlockers, unlocker{obj: o, held: hs})
+			}
+		}
+		return []lstate{ns}
+	}
 	// function literals passed as arguments run synchronously inside the callee
 	out := []lstate{s}
-	for _, a := range c.Args {
+	for ai, a := range c.Args {
 		if lit, ok := ast.Unparen(a).(*ast.FuncLit); ok {
 			var next []lstate
 			for _, cs := range out {
-				exits := la.body(pkg, lit.Body, lstate{held: cs.held}, "lit", lit)
+				entryHeld := cs.held
+				var under []Held
+				if helper != nil {
+					// the helper runs its function parameter under its own locks: r.write(func() { ... })
+					if hs, ok := helper.UnderLock[ai]; ok && len(hs) > 0 {
+						under = translateHeld(hs, helperFI, c)
+						entryHeld = addHeld(lstate{held: cs.held}, under).held
+					}
+				}
+				exits := la.body(pkg, lit.Body, lstate{held: entryHeld}, "lit", lit)
+				if len(under) > 0 {
+					// the helper releases its locks after the literal returned
+					for i := range exits {
+						exits[i] = lstate{held: dropHeld(exits[i], under).held}
+					}
+				}
 				if len(exits) == 0 {
 					next = append(next, cs)
 				}
@@ -582,6 +839,35 @@ func (la *lockAnalyzer) runDefers(pkg *packages.Package, s lstate, inLit *ast.Fu
 				la.event(&LockEvent{Kind: kind, Call: ds.Call, Op: op, Node: ds, Held: cs.held, Ctx: "defer", InLit: inLit, Double: double, Stray: stray})
 				next = append(next, lstate{held: ns.held})
 				continue
+			}
+			// defer helper(args)(): the returned release function runs now
+			if inner, ok := ast.Unparen(ds.Call.Fun).(*ast.CallExpr); ok {
+				if callee := la.p.staticCallee(pkg, inner); callee != nil {
+					if sum := la.p.lockHelper(callee); len(sum.Acquires) > 0 {
+						hs := translateHeld(sum.Acquires, callee, inner)
+						for _, h := range hs {
+							la.event(&LockEvent{Kind: "release", Call: ds.Call, Op: &LockOp{Path: h.Path, Class: h.Class, Mode: h.Mode}, Node: ds, Held: cs.held, Ctx: "defer", InLit: inLit})
+						}
+						next = append(next, lstate{held: dropHeld(cs, hs).held})
+						continue
+					}
+				}
+			}
+			// defer unlock() with unlock := helper(args)
+			if o := objOf(pkg.TypesInfo, ds.Call.Fun); o != nil {
+				released := false
+				for _, u := range s.unlockers {
+					if u.obj == o {
+						for _, h := range u.held {
+							la.event(&LockEvent{Kind: "release", Call: ds.Call, Op: &LockOp{Path: h.Path, Class: h.Class, Mode: h.Mode}, Node: ds, Held: cs.held, Ctx: "defer", InLit: inLit})
+						}
+						next = append(next, lstate{held: dropHeld(cs, u.held).held})
+						released = true
+					}
+				}
+				if released {
+					continue
+				}
 			}
 			la.event(&LockEvent{Kind: "call", Call: ds.Call, Keys: la.p.calleeKeys(pkg, ds.Call), Node: ds, Held: cs.held, Ctx: "defer", InLit: inLit})
 			next = append(next, cs)
